@@ -15,7 +15,7 @@ from .nodes import OptionNode, ConstantNode, FormatNode, ConditionNode, TagsNode
 from .nodes import ModNode, GroupNode
 from .nodes import BooleanNode, IntegerNode, FloatNode, StringNode, TableNode
 from .solvers import LogicalSolver
-from .datatypes import Type
+from .datatypes import Type, BooleanType
 
 class DIP:
     """ DIP parser class
@@ -341,7 +341,11 @@ class DIP:
             if node.keyword in ['float','int'] and node.condition:
                 target.autoref = node.name
                 with LogicalSolver(target) as s:
-                    if not s.solve(node.condition).value:
+                    result = s.solve(node.condition)
+                    # a single comparison returns a plain boolean, logical operators a BooleanType
+                    if isinstance(result, BooleanType):
+                        result = result.value
+                    if not result:
                         raise Exception("Node does not fullfil a condition:",
                                         node.name, node.condition)
                 target.autoref = None
